@@ -20,16 +20,20 @@ import (
 	"sync/atomic"
 	"time"
 
+	"github.com/containerd/containerd/v2/core/remotes/docker"
 	"github.com/containerd/containerd/v2/pkg/reference"
 	"github.com/containerd/stargz-snapshotter/cache"
 	"github.com/containerd/stargz-snapshotter/estargz"
 	"github.com/containerd/stargz-snapshotter/estargz/zstdchunked"
+	stargzfs "github.com/containerd/stargz-snapshotter/fs"
 	"github.com/containerd/stargz-snapshotter/fs/config"
 	"github.com/containerd/stargz-snapshotter/fs/layer"
 	"github.com/containerd/stargz-snapshotter/fs/reader"
 	"github.com/containerd/stargz-snapshotter/fs/remote"
+	"github.com/containerd/stargz-snapshotter/fs/source"
 	"github.com/containerd/stargz-snapshotter/metadata"
 	memorymetadata "github.com/containerd/stargz-snapshotter/metadata/memory"
+	"github.com/containerd/stargz-snapshotter/snapshot"
 	"github.com/containerd/stargz-snapshotter/task"
 	"github.com/klauspost/compress/zstd"
 	digest "github.com/opencontainers/go-digest"
@@ -58,18 +62,22 @@ func newRegistry(blob []byte) *registry {
 }
 
 func (g *registry) Handle(ctx context.Context, desc ocispec.Descriptor) (remote.Fetcher, int64, error) {
+	g.mu.Lock()
+	down := g.off
+	g.mu.Unlock()
+	if down {
+		return nil, 0, fmt.Errorf("registry unreachable")
+	}
 	return g, int64(len(g.blob)), nil
 }
 
 func (g *registry) Fetch(ctx context.Context, off int64, size int64) (io.ReadCloser, error) {
 	g.mu.Lock()
 	g.log = append(g.log, [2]int64{off, size})
-	down, failFrom, stall, gate := g.off, g.failFrom, g.stall, g.gate
+	stall, gate := g.stall, g.gate
 	g.mu.Unlock()
-	if down {
-		return nil, fmt.Errorf("registry unreachable")
-	}
 	if stall {
+		// parked first; whether the registry answers is decided when the request is released
 		atomic.AddInt32(&g.hits, 1)
 		g.hitCh <- struct{}{}
 		select {
@@ -79,6 +87,12 @@ func (g *registry) Fetch(ctx context.Context, off int64, size int64) (io.ReadClo
 			return nil, ctx.Err()
 		}
 		atomic.AddInt32(&g.hits, -1)
+	}
+	g.mu.Lock()
+	down, failFrom := g.off, g.failFrom
+	g.mu.Unlock()
+	if down {
+		return nil, fmt.Errorf("registry unreachable")
 	}
 	if err := ctx.Err(); err != nil {
 		return nil, err
@@ -335,6 +349,14 @@ type world struct {
 	bgRan      bool
 	bgOK       bool
 	anyTimeout bool
+	built      *built
+	refspec    reference.Spec
+	desc       ocispec.Descriptor
+	fsys       snapshot.FileSystem
+	armOnce    sync.Once
+	armFault   func()
+	mounted    bool
+	labels     map[string]string
 	storeDone  func()
 }
 
@@ -404,18 +426,62 @@ func setup(c *Case, obs *Obs) (*world, error) {
 		return nil, err
 	}
 	w.storeDone = storeDone
+	w.built = b
+	w.refspec, err = reference.Parse("registry.test/img:latest")
+	if err != nil {
+		return nil, err
+	}
+	sum := sha256.Sum256(b.blob)
+	w.desc = ocispec.Descriptor{Digest: digest.NewDigestFromBytes(digest.SHA256, sum[:]), Size: int64(len(b.blob)), MediaType: ocispec.MediaTypeImageLayerGzip}
+	if c.FS {
+		// filesystem level: the real fs.NewFilesystem; the layer is resolved by the "mount" op through the real Mount.
+		// The metadata store is wrapped so that the registry fault of the mount op is armed when the TOC has been read,
+		// i.e. for the prefetch that Mount spawns and not for the resolution of the layer.
+		cfg.NoPrefetch, cfg.NoBackgroundFetch = c.NoPrefetch, c.NoBG
+		cfg.NoPrometheus = true
+		cfg.AllowNoVerification = true
+		cfg.BlobConfig.CheckAlways = c.CheckAlways
+		if c.LabelSize {
+			cfg.PrefetchSize = c.PrefetchSize/2 + 7 // overridden by the label of the mount op
+		}
+		wrapped := func(sr *io.SectionReader, opts ...metadata.Option) (metadata.Reader, error) {
+			r, err := store(sr, opts...)
+			w.armOnce.Do(func() {
+				w.pfMark = w.reg.logLen()
+				if f := w.armFault; f != nil {
+					w.reg.set(f)
+				}
+			})
+			return r, err
+		}
+		noHosts := func(reference.Spec) ([]docker.RegistryHost, error) {
+			return nil, fmt.Errorf("no registry host configured")
+		}
+		getSources := func(labels map[string]string) ([]source.Source, error) {
+			return []source.Source{{Hosts: noHosts, Name: w.refspec, Target: w.desc, Manifest: ocispec.Manifest{Layers: []ocispec.Descriptor{w.desc}}}}, nil
+		}
+		w.fsys, err = stargzfs.NewFilesystem(w.tmp, cfg, stargzfs.WithResolveHandler("mem", w.reg), stargzfs.WithMetadataStore(wrapped),
+			stargzfs.WithGetSources(getSources), stargzfs.WithOverlayOpaqueType(layer.OverlayOpaqueAll))
+		if err != nil {
+			return nil, err
+		}
+		var tm *task.BackgroundTaskManager
+		w.resolver, tm = stargzfs.VerifPartsC15(w.fsys)
+		if w.resolver == nil || tm == nil {
+			return nil, fmt.Errorf("filesystem parts not reachable")
+		}
+		w.tm = tm
+		tm.VerifSetSilencePeriodC15(2 * time.Millisecond)
+		layer.VerifSetPrefetchTimeoutC15(w.resolver, w.timeout)
+		obs.LMOff = -1
+		return w, nil
+	}
 	w.resolver, err = layer.NewResolver(w.tmp, w.tm, cfg, map[string]remote.Handler{"mem": w.reg}, store, layer.OverlayOpaqueAll, nil)
 	if err != nil {
 		return nil, err
 	}
 	layer.VerifSetPrefetchTimeoutC15(w.resolver, w.timeout)
-	refspec, err := reference.Parse("registry.test/img:latest")
-	if err != nil {
-		return nil, err
-	}
-	sum := sha256.Sum256(b.blob)
-	desc := ocispec.Descriptor{Digest: digest.NewDigestFromBytes(digest.SHA256, sum[:]), Size: int64(len(b.blob)), MediaType: ocispec.MediaTypeImageLayerGzip}
-	w.l, err = w.resolver.Resolve(context.Background(), nil, refspec, desc)
+	w.l, err = w.resolver.Resolve(context.Background(), nil, w.refspec, w.desc)
 	if err != nil {
 		return nil, fmt.Errorf("resolve: %w", err)
 	}
@@ -425,9 +491,18 @@ func setup(c *Case, obs *Obs) (*world, error) {
 	} else if err := w.l.Verify(b.tocDigest); err != nil {
 		return nil, fmt.Errorf("verify: %w", err)
 	}
+	if err := w.observe(obs); err != nil {
+		return nil, err
+	}
+	return w, nil
+}
+
+// observe: the parts of the resolved layer and its layout as the metadata reader shows it.
+func (w *world) observe(obs *Obs) error {
+	c := w.c
 	w.vr, w.rd, w.blob = layer.VerifLayerPartsC15(w.l)
 	if w.vr == nil || w.rd == nil || w.blob == nil {
-		return nil, fmt.Errorf("layer parts not reachable")
+		return fmt.Errorf("layer parts not reachable")
 	}
 
 	// observe the layout through the metadata reader
@@ -541,7 +616,7 @@ func setup(c *Case, obs *Obs) (*world, error) {
 		return nil
 	}
 	if err := walk(mr.RootID(), "", 0); err != nil {
-		return nil, fmt.Errorf("walk: %w", err)
+		return fmt.Errorf("walk: %w", err)
 	}
 	// hardlinks listed before their target in the walk: second pass for the prio mark
 	for _, fi := range w.files {
@@ -553,7 +628,7 @@ func setup(c *Case, obs *Obs) (*world, error) {
 	for _, fi := range w.files {
 		obs.Files = append(obs.Files, fi.FileObs)
 	}
-	return w, nil
+	return nil
 }
 
 func (w *world) teardown() {
@@ -573,7 +648,10 @@ func (w *world) teardown() {
 		}
 	}
 	pctl.settle()
-	if w.l != nil {
+	if w.fsys != nil {
+		stargzfs.VerifForgetC15(w.fsys, mountpoint)
+		stargzfs.VerifNoFuseC15(mountpoint, false)
+	} else if w.l != nil {
 		w.l.Close()
 	}
 	if w.storeDone != nil {
@@ -707,6 +785,11 @@ func (w *world) afterPrefetchBody(res string, out *OpOut) {
 		out.Keys = w.fsKeys()
 		out.HasKeys = true
 	}
+	if w.c.FS && !w.c.NoBG {
+		// the background fetch spawned by Mount runs concurrently: the requests cannot be attributed
+		out.Reqs = nil
+		return
+	}
 	w.checkPrefetchTraffic(out.Reqs, res)
 }
 
@@ -793,6 +876,35 @@ func (w *world) checkPrefetchTraffic(reqs [][2]int64, res string) {
 	}
 }
 
+// awaitPrefetch waits until every running Prefetch call returned, or a request is parked at the registry gate.
+func (w *world) awaitPrefetch() (stalled bool) {
+	deadline := time.After(20 * time.Second)
+	for {
+		allDone := true
+		for _, ch := range w.pfRunning {
+			if len(ch) == 0 {
+				allDone = false
+			}
+		}
+		if allDone {
+			return false
+		}
+		select {
+		case <-w.reg.hitCh:
+			return true
+		case <-deadline:
+			w.bad("Prefetch neither returned nor reached the registry")
+			return false
+		case <-time.After(200 * time.Microsecond):
+			if atomic.LoadInt32(&w.reg.hits) > 0 {
+				return true
+			}
+		}
+	}
+}
+
+const mountpoint = "/verif-c15/mnt"
+
 func (w *world) run(obs *Obs) {
 	c := w.c
 	pre := false
@@ -800,7 +912,153 @@ func (w *world) run(obs *Obs) {
 	for i := range c.Ops {
 		o := c.Ops[i]
 		var out OpOut
+		if c.FS && !w.mounted && o.Op != "mount" && o.Op != "check" && o.Op != "off" && o.Op != "on" {
+			out.Res = "none"
+			obs.Outs = append(obs.Outs, out)
+			continue
+		}
 		switch o.Op {
+		case "mount":
+			// the real fs.Mount (minus the FUSE server): sources, prefetch-size label, resolution, the prefetch and
+			// background fetch it spawns, verification, registration of the layer under the mountpoint
+			if !c.FS || w.mounted {
+				out.Res = "none"
+				break
+			}
+			labels := map[string]string{}
+			if c.SkipVerify {
+				labels[config.TargetSkipVerifyLabel] = "true"
+			} else {
+				labels[estargz.TOCJSONDigestAnnotation] = w.built.tocDigest.String()
+			}
+			if c.LabelSize {
+				labels[config.TargetPrefetchSizeLabel] = fmt.Sprintf("%d", c.PrefetchSize)
+			}
+			w.labels = labels
+			switch o.Fault {
+			case "fail":
+				w.armFault = func() { w.reg.failFrom = o.FailFrom }
+			case "stall":
+				w.armFault = func() { w.reg.stall = true }
+			}
+			stargzfs.VerifNoFuseC15(mountpoint, true)
+			if err := w.fsys.Mount(context.Background(), mountpoint, labels); err != nil {
+				out.Res = "err"
+				w.bad("Mount of a well-formed layer from a reachable registry failed: %v", err)
+				break
+			}
+			w.l = stargzfs.VerifLayerC15(w.fsys, mountpoint)
+			if w.l == nil {
+				out.Res = "err"
+				w.bad("Mount succeeded but no layer is registered under the mountpoint")
+				break
+			}
+			if err := w.observe(obs); err != nil {
+				out.Res = "err"
+				w.bad("mounted layer cannot be observed: %v", err)
+				break
+			}
+			w.mounted = true
+			if !c.NoPrefetch {
+				// what the compressed-blob cache held when the prefetch spawned by Mount started: the footer / TOC reads
+				pre = true
+				seen := map[int64]bool{}
+				for _, r := range w.reg.logFrom(0)[:w.pfMark] {
+					for b := r[0] / c.BlobCS * c.BlobCS; b < r[0]+r[1]; b += c.BlobCS {
+						if !seen[b] {
+							seen[b] = true
+							obs.Pre = append(obs.Pre, b)
+						}
+					}
+				}
+			}
+			out.Res = "ok"
+			if !c.NoPrefetch {
+				// join the prefetch Mount spawned: a second call returns when the first one is over (sync.Once)
+				ch := make(chan error, 1)
+				w.pfRunning = append(w.pfRunning, ch)
+				go func() { ch <- w.l.Prefetch(c.PrefetchSize) }()
+				if w.awaitPrefetch() {
+					out.Res = "stalled"
+					break
+				}
+				w.collectPrefetch()
+				w.reg.set(func() { w.reg.failFrom = -1; w.reg.stall = false })
+				res := "ok"
+				if o.Fault == "fail" {
+					res = "unknown"
+				}
+				w.afterPrefetchBody(res, &out)
+			}
+			if !c.NoBG {
+				// ... and the background fetch it spawned
+				done := make(chan error, 1)
+				go func() { done <- w.l.BackgroundFetch() }()
+				select {
+				case <-done:
+				case <-time.After(60 * time.Second):
+					w.bad("the BackgroundFetch spawned by Mount did not finish")
+				}
+				w.bgRan = true
+				w.bgOK = o.Fault == ""
+				if !w.held {
+					pctl.settle()
+					out.Keys, out.HasKeys = w.fsKeys(), true
+				}
+				if w.bgOK {
+					down := false
+					w.reg.set(func() { down = w.reg.off; w.reg.off = true })
+					errs, grew, _ := w.readFiles(func(fi *fileInfo) bool { return !fi.Landmark }, o.Buf)
+					w.reg.set(func() { w.reg.off = down })
+					if errs > 0 || grew {
+						w.bad("after the BackgroundFetch spawned by Mount finished, %d file(s) could not be read with the registry unreachable (requests attempted: %v)", errs, grew)
+					}
+				}
+			}
+		case "check":
+			// the real fs.Check
+			mp := mountpoint
+			if o.Bad {
+				mp = "/verif-c15/other"
+			}
+			if w.mounted {
+				info := w.l.Info()
+				out.Full = info.FetchedSize >= info.Size
+			}
+			down := false
+			w.reg.set(func() { down = w.reg.off })
+			t0 := time.Now()
+			done := make(chan error, 1)
+			go func() { done <- w.fsys.Check(context.Background(), mp, w.labels) }()
+			var err error
+			select {
+			case err = <-done:
+			case <-time.After(w.timeout + 5*time.Second):
+				w.bad("Check did not return %v after the prefetch timeout of %v", 5*time.Second, w.timeout)
+				out.Res = "hang"
+			}
+			el := time.Since(t0)
+			if out.Res != "hang" {
+				out.Res = resOf(err)
+			}
+			out.Waited = el >= w.timeout-5*time.Millisecond
+			if !o.Bad && w.mounted {
+				running := len(w.pfRunning) > 0 && !w.pfBodyRan
+				want, _ := w.effectiveRange()
+				async := c.AsyncSize > 0 && want > c.AsyncSize
+				switch {
+				case err != nil && !down:
+					w.bad("Check of a mounted layer failed although the registry is reachable: %v", err)
+				case err == nil && out.Waited && (c.NoPrefetch || w.anyTimeout || (w.pfBodyRan && len(w.pfRunning) == 0) || (running && async)):
+					w.bad("Check blocked for %v although there was no prefetch to wait for (noprefetch=%v, earlier timeout=%v, prefetch over=%v, async release due=%v)",
+						el, c.NoPrefetch, w.anyTimeout, w.pfBodyRan && len(w.pfRunning) == 0, running && async)
+				case err == nil && !out.Waited && running && !async && !w.anyTimeout && !c.NoPrefetch:
+					w.bad("the first Check returned after %v without waiting for the prefetch that was still downloading", el)
+				}
+				if err == nil && out.Waited {
+					w.anyTimeout = true
+				}
+			}
 		case "hold":
 			if c.dirCache() && !c.SyncAdd {
 				pctl.setHold(true)
@@ -853,34 +1111,7 @@ func (w *world) run(obs *Obs) {
 				w.pfRunning = append(w.pfRunning, ch)
 				go func() { ch <- w.l.Prefetch(c.PrefetchSize) }()
 			}
-			// wait until every call returned, or a request is parked at the gate
-			stalled := false
-			deadline := time.After(20 * time.Second)
-		waitLoop:
-			for {
-				allDone := true
-				for _, ch := range w.pfRunning {
-					if len(ch) == 0 {
-						allDone = false
-					}
-				}
-				if allDone {
-					break
-				}
-				select {
-				case <-w.reg.hitCh:
-					stalled = true
-					break waitLoop
-				case <-deadline:
-					w.bad("Prefetch neither returned nor reached the registry")
-					break waitLoop
-				case <-time.After(200 * time.Microsecond):
-					if atomic.LoadInt32(&w.reg.hits) > 0 {
-						stalled = true
-						break waitLoop
-					}
-				}
-			}
+			stalled := w.awaitPrefetch()
 			if stalled {
 				out.Res = "stalled"
 			} else {
